@@ -14,7 +14,7 @@ ID = 'C05'
 LEVEL = 'exploration'
 WORKERS = {'quick': 4, 'thorough': 14}
 BUDGET_S = {'quick': 60, 'thorough': 360}
-REQUIRED_COUNTERS = ['stop_points', 'blocks', 'primitive_values', 'roundtrips', 'inputs_unchanged']
+REQUIRED_COUNTERS = ['stop_points', 'blocks', 'primitive_values', 'roundtrips', 'inputs_unchanged', 'history_calls']
 RULE = ('every (at_round in 0..Nr, after_step in 0..3, direction) stop point is queried for each case; a case = '
         '(key size, direction, one of the 4 broadcasting shapes, input dtype, block/key structure: random | all-00 | all-FF | '
         'walking byte over the 256 values at one position | default-arguments); primitives: every byte value at every '
@@ -65,6 +65,9 @@ def cases(tier, seed):
                 out.append(dict(gen='stops', nk=nk, dir=direction, shape='one_many', dtype='uint8', struct='walk_key',
                                 pos=int((pos * 7 + nk) % nk), n=256, sub=core.subseed('C05', seed, k)))
                 k += 1
+    # call histories on preallocated buffers refilled in place (state leaking from one call into the next: caches, shared round lists)
+    for j in range(6 if tier == 'quick' else 200):
+        out.append(dict(gen='history', calls=40, sub=core.subseed('C05h', seed, j), must=j < 3))
     n_rand = 80 if tier == 'quick' else 6000
     rs = np.random.default_rng(core.subseed('C05r', seed))
     for j in range(n_rand):
@@ -142,6 +145,8 @@ def run_case(case):
     if g == 'primitives':
         return _primitives(t, case)
 
+    if g == 'history':
+        return _history(t, case)
     rng = np.random.default_rng(case['sub'])
     blocks, keys = _build_inputs(case, rng)
     dt = np.dtype(case['dtype'])
@@ -198,6 +203,58 @@ def run_case(case):
     t.check(_tables_digest() == _T0, 'shared_table_modified', lambda: dict(case=case))
     sig = '|'.join(str(case.get(k)) for k in ('nk', 'dir', 'shape', 'dtype', 'struct', 'pos', 'n', 'sub'))
     return t.result(sig=sig, sample=dict(case=case, stop_points=(nr + 1) * 4, blocks=n, comparisons=t.checks))
+
+
+def _history(t, case):
+    """A sequence of calls sharing the SAME key / block array objects, rewritten in place between calls."""
+    import scared
+    rng = np.random.default_rng(case['sub'])
+    kbuf = {(nk, many): (np.zeros((5, nk), dtype='uint8') if many else np.zeros(nk, dtype='uint8')) for nk in (16, 24, 32) for many in (False, True)}
+    bbuf = {many: (np.zeros((5, 16), dtype='uint8') if many else np.zeros(16, dtype='uint8')) for many in (False, True)}
+    log = []
+    kept = []
+    for c in range(case['calls']):
+        nk = int(rng.choice([16, 24, 32])) if rng.random() < 0.4 or not log else log[-1][0]      # mostly the same key size as the previous call
+        many_k, many_b = bool(rng.random() < 0.3), bool(rng.random() < 0.4)
+        kb, bb = kbuf[(nk, many_k)], bbuf[many_b]
+        if rng.random() < 0.8 or c == 0:
+            kb[...] = rng.integers(0, 256, kb.shape)            # same object, new content
+        if rng.random() < 0.8 or c == 0:
+            bb[...] = rng.integers(0, 256, bb.shape)
+        direction = ['enc', 'dec'][int(rng.integers(2))]
+        nr = nk // 4 + 6
+        fn = scared.aes.encrypt if direction == 'enc' else scared.aes.decrypt
+        full = rng.random() < 0.4
+        rnd, step = int(rng.integers(0, nr + 1)), int(rng.integers(0, 4))
+        snap = (kb.tobytes(), bb.tobytes())
+        got = fn(bb, kb) if full else fn(bb, kb, at_round=rnd, after_step=step)
+        n = 5 if (many_k or many_b) else 1
+        exp = []
+        for i in range(n):
+            b = (bb[i] if many_b else bb).tolist()
+            k = (kb[i] if many_k else kb).tolist()
+            st, final = (R.enc_states if direction == 'enc' else R.dec_states)(b, k)
+            exp.append(final if full else st[(rnd, step)])
+        exp = np.array(exp, dtype='uint8').reshape((16,) if n == 1 else (n, 16))
+        log.append((nk, direction, 'full' if full else (rnd, step), many_k, many_b))
+        # an array returned earlier must not change when the API is called again (no shared output buffer)
+        for (old_arr, old_copy, old_call) in kept:
+            t.check(np.array_equal(old_arr, old_copy), 'earlier_result_overwritten_by_later_call', lambda: dict(case=case, call=c, earlier_call=old_call, history=log[-4:]))
+        kept = (kept + [(got, np.array(got, copy=True), c)])[-3:]
+        t.count('stop_points')
+        t.count('history_calls')
+        t.count('blocks', n)
+        t.check(np.shape(got) == exp.shape and np.array_equal(got, exp), 'result_depends_on_earlier_calls',
+                lambda: dict(case=case, call=c, history=log[-4:], key=np.asarray(kb).reshape(-1, nk)[0].tolist(), block=np.asarray(bb).reshape(-1, 16)[0].tolist(),
+                             got=np.asarray(got).reshape(-1, 16)[0].tolist(), expected=exp.reshape(-1, 16)[0].tolist()))
+        t.check((kb.tobytes(), bb.tobytes()) == snap, 'input_modified', lambda: dict(case=case, call=c))
+        if rng.random() < 0.3:
+            ks = np.asarray(scared.aes.key_schedule(kb if not many_k else kb[0]))
+            t.check(ks.reshape(-1, 16).tolist() == R.expand((kb if not many_k else kb[0]).tolist()), 'key_schedule_depends_on_earlier_calls', lambda: dict(case=case, call=c))
+    t.check(_tables_digest() == _T0, 'shared_table_modified', lambda: dict(case=case))
+    for c in ('roundtrips', 'inputs_unchanged', 'primitive_values'):
+        t.count(c, 0)
+    return t.result(sig=f"history|{case['sub']}", sample=dict(case=case, calls=case['calls'], last_calls=log[-5:]))
 
 
 def _primitives(t, case):
